@@ -93,9 +93,17 @@ WIDE = [2 ** 53 + 1, 2 ** 62 + 6, 10 ** 22 + 3, -(2 ** 53) - 1, 2 ** 9 + 1, 3 **
 TABLE_BIT = [(12, 2), (-7, 3), (6, 6), (0, 4), (5, 0), (9, 1), (1, 8), (-3, 7)]
 
 
+# pairs for the comparison operators only (nothing is computed, so the oracle -- Python's operator on the same two
+# values -- is exact whatever the values): neighbouring floats, values that differ far below any tolerance, infinities,
+# the two zeros
+TABLE_CMP = [(0.1 + 0.2, 0.3), (0.3, 0.30000000000000004), (1e16, 1e16 + 2), (2 ** 53, 2 ** 53 + 1), (2.0 ** 53, 2 ** 53 + 1),
+             (float("inf"), 1e308), (-float("inf"), 0), (-0.0, 0.0), (1.0, 1.0000000000000002),
+             (float("nan"), 1.0), (2, float("nan")), (float("nan"), float("nan"))]
+
+
 def enumerate_matrix(tier):
     for op, kind in CELLS:
-        table = TABLE_BIT if op in BITS else TABLE_GEN
+        table = TABLE_BIT if op in BITS else TABLE_GEN + (TABLE_CMP if op in CMP else [])
         for i, (a, b) in enumerate(table):
             yield {"op": op, "kind": kind, "a": a, "b": b, "src": "fiber" if i % 2 else "ctor"}
 
@@ -175,7 +183,8 @@ class Operand:
 
 
 def tagged(v):
-    return (type(v).__name__, v)
+    # (a nan is not equal to itself: tag it by name so that "still the same nan" can be said)
+    return (type(v).__name__, "nan" if isinstance(v, float) and v != v else v)
 
 
 def plain(x, what):
@@ -598,7 +607,43 @@ def check_nzd(case, rec):
     rec.nontrivial(len(case["f"]) >= 2 and (op != "imul_fiber" or 0 < len(set(c for c, _ in case["f"]) & set(c for c, _ in case["g"])) < len(case["f"])))
 
 
+# ---------------------------------------------------------------- truth value of a box (not / and / or / bool)
+TRUTH_VALUES = [0, 0.0, 1, -2, 0.5, 2 ** 60, -0.0]
+
+
+def truth_cases(tier):
+    for v in TRUTH_VALUES:
+        for form in ("bool", "not", "and", "or", "if"):
+            yield {"v": v, "form": form}
+
+
+def check_truth(case, rec):
+    """Python's logical operators go through the truth value: that of a box is the truth value of what it holds"""
+    v, form = case["v"], case["form"]
+    box = Payload(v)
+    if form == "bool":
+        got, want = bool(box), bool(v)
+    elif form == "not":
+        got, want = (not box), (not v)
+    elif form == "and":
+        got, want = (box and 7), (v and 7)
+        got = Payload.get(got)
+    elif form == "or":
+        got, want = (box or 7), (v or 7)
+        got = Payload.get(got)
+    else:
+        got, want = (1 if box else 2), (1 if v else 2)
+    if got != want or type(got) is not type(want):
+        raise Violation("truth", f"{form} on Payload({v!r}) gives {got!r}, on the value {want!r}")
+    if Payload.get(box) != v:
+        raise Violation("operand-changed", f"{form} changed the box to {box!r}")
+    rec.cls(form)
+    rec.nontrivial(not v)
+
+
 PARTS = [
+    Part("truth", None, check_truth, n_quick=0, n_thorough=0, enumerate=truth_cases,
+         exhaustive_note=f"bool / not / and / or / if on a box holding each of {len(TRUTH_VALUES)} values"),
     Part("nonzero-default", nzd_cases(), check_nzd, n_quick=1200, n_thorough=6000),
     Part("matrix", matrix_cases(), check_matrix, n_quick=3000, n_thorough=20000, enumerate=enumerate_matrix,
          exhaustive_note=f"all {len(CELLS)} cells (operator x operand kinds) of the Payload / CoordPayload operator "
